@@ -21,6 +21,25 @@ LEVEL = "exploration"
 SHARDS = {"quick": 8, "thorough": 16}
 BUDGET = {"quick": 25.0, "thorough": 420.0}
 REQUIRE = {
+    "lazy_core_histories": 300,
+    "lazy_iterable_consumed_in_connect": 1000,
+    "lazy_iterable_consumed_in_disconnect": 400,
+    "lazy_in_connect:kill": 300,
+    "lazy_in_connect:disc_key": 150,
+    "lazy_in_connect:connect": 150,
+    "lazy_in_connect:emit": 150,
+    "lazy_in_disconnect:kill": 150,
+    "model:connections_made_with_reentrant_connect": 500,
+    "family_cases": 300,
+    "model:registration_probes": 15000,
+    "model:registration_probes_must_accept": 2500,
+    "model:registration_probes_must_reject": 10000,
+    "model:registration_probes_must_reject_list_shared_with_later_class": 800,
+    "model:family_class:shared": 200,
+    "model:family_class:alias": 60,
+    "model:family_class:absent": 150,
+    "model:family_class_multiple_bases": 50,
+    "model:family_manual_register": 100,
     "sender_lifetime_refcount_only_checks": 2000,
     "sender_lifetime_refcount_only_checks:live-weak-args-connection": 500,
     "sender_lifetime_refcount_only_checks:only-removed-weak-args-connections": 200,
@@ -40,9 +59,9 @@ REQUIRE = {
     "model:args_checked_user_arg": 500,
     "model:required_called_once": 25000,
     "model:order_checked": 8000,
-    "model:emits_with_removal_during": 4000,
+    "model:emits_with_removal_during": 3000,
     "model:emits_with_connect_during": 2000,
-    "model:emits_with_weak_death_during": 600,
+    "model:emits_with_weak_death_during": 400,
     "model:optional_calls": 100,
     "model:result_checked": 12000,
     "model:result_true_expected": 5000,
@@ -73,7 +92,12 @@ RULE = (
     "(quick: n=3 with <=1 op, n<=2 with <=2 ops; thorough adds n=4, its 2-op prefixes as far as 75% of the budget allows -- see "
     "core_complete_in_budget) + final emit; random histories of 5..40 ops over 3 senders x 2 names incl. real "
     "widgets (Button click, CheckBox/Edit change+postchange, SimpleListWalker/SimpleFocusListWalker modified, walker inside a "
-    "ListBox); distinct = distinct (header, ops) descriptors; non-trivial = at least one emit executed; PLUS refcount-only lifetime "
+    "ListBox); distinct = distinct (header, ops) descriptors; non-trivial = at least one emit executed; weak_args / user_args are also passed as generators whose body performs ops (kill an earlier weak "
+    "arg, disconnect, connect, emit, gc) INSIDE connect()/disconnect() -- enumerated (2 earlier handlers x op x position x "
+    "iterable x API) and random; PLUS class families for the registration clause (MetaSignals classes with list literal / list "
+    "object shared between classes / `signals = Other.signals` / no list, 0-2 bases, diamonds, duplicate names, plain classes and "
+    "manual register_signal, directed shapes in several creation orders + random families): after every class creation or "
+    "register call connect() is probed for every (class so far, name in {a,b,c,d,7,nope}); PLUS refcount-only lifetime "
     "cases (cyclic gc disabled, cycle-free senders {plain, falsy, MetaSignals subclass, int-named} and callbacks {function, object, "
     "bound method} that never refer to the sender): every connection shape {none,u,uu,d,ud,w,ww,www,wu,wwuu,wd,wud} x {connected, "
     "disconnected by key/args, emitted, emitted then disconnected, two signals, duplicate, one of two disconnected, bogus "
@@ -86,6 +110,8 @@ ASSUMES = [
     "a connection whose weak argument dies during an emit must not be called after the death; calls before it are fine",
     "emit result is compared by truthiness; handler return values used: None, False, 0, '', True, 1, 'x', (0,)",
     "for widget triggers the emitted arguments follow the widget documentation: (widget, new value) for 'change', (widget, old value) for 'postchange', (widget,) for 'click', () for 'modified'",
+    "registration: a class must accept the names in its own `signals` list as it was when the class was created plus everything its bases must accept (MetaSignals docstring), and must reject every name outside that set and outside the contents its bases' lists had at that moment (names only in the latter are not judged); classes created later never change this; a manual register_signal call replaces the set",
+    "ops run from inside connect()/disconnect() are ordered before the connection/disconnection they are nested in (the handler list is touched last by connect)",
     "refcount-only lifetime part: a sender class is used only if a never-connected instance of it dies by reference counting alone (control run first); whether a dead weak argument's connection also releases its callback is recorded as an observation (dead_weak_connection_callback_released/retained), not judged",
     "history part: liveness is judged after dropping the harness's own references and one gc.collect(); handlers never hold a strong reference to a sender or weak argument other than ones the history itself passes as user_args (never done)",
     "weak-argument objects use identity equality; senders accept attribute assignment (no __slots__)",
@@ -367,35 +393,77 @@ class Session:
         self.cnt("op:" + k)
         getattr(self, "op_" + k)(op, h)
 
-    def _connect(self, sid, name, handler, weak, uargs, uarg, style):
+    def _lazy(self, items, lazy, which, where):
+        """the argument iterable handed to connect/disconnect: a generator whose body performs scripted
+        ops (re-entrancy inside connect()/disconnect(): the iterables are consumed in there)"""
+        if lazy is None or lazy.get("in") != which:
+            return None
+        at = lazy.get("at", 0)
+
+        def gen():
+            for i, x in enumerate(items):
+                if i == at:
+                    self._lazy_acts(lazy, where)
+                yield x
+            if at >= len(items):
+                self._lazy_acts(lazy, where)
+
+        return gen()
+
+    def _lazy_acts(self, lazy, where):
+        self.cnt(f"lazy_iterable_consumed_in_{where}")
+        for act in lazy["acts"]:
+            self.cnt(f"lazy_in_{where}:{act[0]}")
+            self.do(act, None)
+
+    def _connect(self, sid, name, handler, weak, uargs, uarg, style, lazy=None):
         if not self.alive(sid, *weak):
             return
         obj = self.objs[sid]
         cb = handler.callable(style)
         kw = {}
+        wobjs = [self.objs[w] for w in weak]
         if weak:
-            kw["weak_args"] = [self.objs[w] for w in weak]
+            kw["weak_args"] = wobjs
         if uargs:
             kw["user_args"] = list(uargs) if len(uargs) % 2 else tuple(uargs)
+        g = self._lazy(wobjs, lazy, "weak", "connect")
+        if g is not None:
+            kw["weak_args"] = g
+        g = self._lazy(list(uargs), lazy, "user", "connect")
+        if g is not None:
+            kw["user_args"] = g
         pos = () if uarg is None else (uarg,)
-        e = {"t": "connect", "cid": len(self.conns), "sid": sid, "name": name, "hid": handler.hid, "weak": list(weak), "uargs": list(uargs), "uarg": uarg, "exc": None}
+        e = {"t": "connect", "cid": None, "sid": sid, "name": name, "hid": handler.hid, "weak": list(weak), "uargs": list(uargs), "uarg": uarg, "exc": None}
+        self.pins.append({sid, *weak})  # the objects being handed over cannot be dropped by a re-entrant op
+        n0 = self.counts.get("lazy_iterable_consumed_in_connect", 0)
         try:
             key = self.f("connect")(obj, nm(name), cb, *pos, **kw)
+        except RecursionError:
+            raise
         except Exception as ex:  # noqa: BLE001
             e["exc"] = type(ex).__name__
+            e["cid"] = -1
             self.ev(e)
             return
+        finally:
+            self.pins.pop()
+        # ops performed by a lazy iterable were logged (and numbered) before this connection exists
+        e["cid"] = len(self.conns)
+        if self.counts.get("lazy_iterable_consumed_in_connect", 0) > n0:
+            e["reent"] = sorted({a[0] for a in lazy["acts"]})
         handler.cids.append(e["cid"])
         self.conns.append({"cid": e["cid"], "key": key, "h": handler, "sid": sid, "name": name, "weak": list(weak), "uargs": list(uargs), "uarg": uarg, "style": style})
         self.ev(e)
 
     def op_connect(self, op, h):
-        _, sid, name, spec, weak, uargs, uarg, style = op
+        _, sid, name, spec, weak, uargs, uarg, style = op[:8]
+        lazy = op[8] if len(op) > 8 else None
         if not self.alive(sid, *weak):
             return
         handler = Handler(self, len(self.handlers), sid, name, spec["ret"], spec["acts"])
         self.handlers.append(handler)
-        self._connect(sid, name, handler, weak, uargs, uarg, style)
+        self._connect(sid, name, handler, weak, uargs, uarg, style, lazy)
 
     def op_reconnect(self, op, h):
         c = self.ref(op[1], h)
@@ -403,27 +471,40 @@ class Session:
             return
         self._connect(c["sid"], c["name"], c["h"], c["weak"], c["uargs"], c["uarg"], c["style"])
 
-    def _disc_args(self, sid, name, cb, hid, weak, uargs, uarg):
+    def _disc_args(self, sid, name, cb, hid, weak, uargs, uarg, lazy=None):
         if not self.alive(sid, *weak):
             return
         kw = {}
+        wobjs = tuple(self.objs[w] for w in weak)
         if weak:
-            kw["weak_args"] = tuple(self.objs[w] for w in weak)
+            kw["weak_args"] = wobjs
         if uargs:
             kw["user_args"] = tuple(uargs) if len(uargs) % 2 else list(uargs)
+        g = self._lazy(wobjs, lazy, "weak", "disconnect")
+        if g is not None:
+            kw["weak_args"] = g
+        g = self._lazy(list(uargs), lazy, "user", "disconnect")
+        if g is not None:
+            kw["user_args"] = g
         pos = () if uarg is None else (uarg,)
         e = {"t": "disc_args", "sid": sid, "name": name, "hid": hid, "weak": list(weak), "uargs": list(uargs), "uarg": uarg, "exc": None}
+        self.pins.append({sid, *weak})
         try:
             self.f("disconnect")(self.objs[sid], nm(name), cb, *pos, **kw)
+        except RecursionError:
+            raise
         except Exception as ex:  # noqa: BLE001
             e["exc"] = type(ex).__name__
+        finally:
+            self.pins.pop()
         self.ev(e)
 
     def op_disc_args(self, op, h):
         c = self.ref(op[1], h)
         if c is None:
             return
-        self._disc_args(c["sid"], c["name"], c["h"].callable(c["style"]), c["h"].hid, c["weak"], c["uargs"], c["uarg"])
+        lazy = op[2] if len(op) > 2 else None
+        self._disc_args(c["sid"], c["name"], c["h"].callable(c["style"]), c["h"].hid, c["weak"], c["uargs"], c["uarg"], lazy)
 
     def _disc_key(self, sid, name, key, cid):
         if not self.alive(sid):
@@ -764,6 +845,42 @@ def core_cases(n, maxprefix, minprefix=0):
                 yield {"header": header, "ops": [*conn, *p, ["emit", "s0", "a", ["x", 1]]]}
 
 
+def lazy_core_cases():
+    """re-entrancy inside connect() / disconnect(): the weak_args / user_args iterable performs one op while it is consumed"""
+    plain_new = ["connect", "s0", "a", {"ret": None, "acts": []}, [], ["nested"], None, "func"]
+    acts = [
+        ["kill", "w0"],
+        ["kill", "w1"],
+        ["disc_key", 0],
+        ["disc_args", 0],
+        ["disc_key", 1],
+        plain_new,
+        ["emit", "s0", "a", ["in"]],
+        ["gc"],
+        ["reconnect", 0],
+    ]
+    for api in ("module", "fresh"):
+        header = {"api": api, "senders": {"s0": {"kind": "plain", "names": ["a", "b"]}}, "nweak": 3}
+        for second_weak, new_weak, where, at, act in itertools.product((0, 1), (0, 1), ("weak", "user"), (0, 9), acts):
+            base = [
+                ["connect", "s0", "a", {"ret": None, "acts": []}, ["w0"], ["h0"], None, "func"],
+                ["connect", "s0", "a", {"ret": 1, "acts": []}, ["w1"] if second_weak else [], ["h1"], None, "meth"],
+            ]
+            lazy = {"in": where, "at": at, "acts": [act]}
+            yield {
+                "header": header,
+                "ops": [
+                    *base,
+                    ["connect", "s0", "a", {"ret": None, "acts": []}, ["w2"] if new_weak else [], ["new"], None, "obj", lazy],
+                    ["emit", "s0", "a", ["x"]],
+                    ["disc_key", -1],
+                    ["emit", "s0", "a", ["y"]],
+                ],
+            }
+            if new_weak == 0:
+                yield {"header": header, "ops": [*base, ["disc_args", 1, lazy], ["emit", "s0", "a", ["x"]], ["disc_args", 0, lazy], ["emit", "s0", "a", ["y"]]]}
+
+
 # ------------------------------------------------------------------ random histories
 
 
@@ -792,7 +909,33 @@ def rand_connect(rng, sids, names_of, depth, nweak, sid=None, name=None):
         weak = [rng.choice(pool) for _ in range(1 if r < 0.35 else 2)]
     uargs = [rng.choice(["u", 3, "v", None]) for _ in range(rng.choice([0, 0, 1, 1, 2]))]
     uarg = rng.choice([None, None, None, None, "dep", 0, False])
-    return ["connect", sid, name, rand_spec(rng, sids, names_of, depth, nweak), weak, uargs, uarg, rng.choice(STYLES)]
+    op = ["connect", sid, name, rand_spec(rng, sids, names_of, depth, nweak), weak, uargs, uarg, rng.choice(STYLES)]
+    if depth < 2 and rng.random() < 0.15:
+        op.append(rand_lazy(rng, sids, names_of, nweak, sid, name))
+    return op
+
+
+def rand_lazy(rng, sids, names_of, nweak, sid, name):
+    """ops performed from inside connect()/disconnect() while it consumes weak_args / user_args"""
+    acts = []
+    for _ in range(rng.choice([1, 1, 2])):
+        r = rng.random()
+        cref = rng.randrange(0, 40)
+        if r < 0.35:
+            acts.append(["kill", f"w{rng.randrange(max(1, nweak))}"])
+        elif r < 0.50:
+            acts.append(["disc_key", cref])
+        elif r < 0.62:
+            acts.append(["disc_args", cref])
+        elif r < 0.75:
+            acts.append(rand_connect(rng, sids, names_of, 2, nweak, sid, name))
+        elif r < 0.90:
+            acts.append(["emit", sid, name, [] if name == "modified" else ["z"]])
+        elif r < 0.95:
+            acts.append(["reconnect", cref])
+        else:
+            acts.append(["gc"])
+    return {"in": rng.choice(["weak", "user"]), "at": rng.randrange(0, 3), "acts": acts}
 
 
 def rand_act(rng, sids, names_of, depth, nweak):
@@ -850,7 +993,7 @@ def rand_history(rng, quick):
         elif r < 0.40:
             ops.append(["reconnect", cref])
         elif r < 0.47:
-            ops.append(["disc_args", cref])
+            ops.append(["disc_args", cref] + ([rand_lazy(rng, sids, names_of, nweak, focus_sid, focus_name)] if rng.random() < 0.2 else []))
         elif r < 0.54:
             ops.append(["disc_key", cref])
         elif r < 0.60:
@@ -1246,10 +1389,212 @@ def run_lifetime(ctx, frac):
 
 
 
+# ------------------------------------------------------------------ class families: registration through MetaSignals
+#
+# A case builds a family of sender classes (MetaSignals classes whose `signals` is a list literal, a list object
+# shared with other classes, `Other.signals`, or absent; single / multiple / diamond bases; plain classes registered by
+# hand) and after EVERY class creation / register call probes connect() for every (class so far, name) pair.
+
+FAM_NAMES = ["a", "b", "c", "d", 7, "nope"]
+
+
+def family_case(desc):
+    import urwid
+    from urwid import signals as S
+
+    events = []
+    lists = {}
+    labels = []
+    cls_of = {}
+    inst = {}
+    nstep = 0
+    reg = S._signals._supported
+    created = []
+    try:
+        for st in desc["steps"]:
+            k = st[0]
+            if k == "list":
+                lists[st[1]] = list(st[2])
+                continue
+            if k == "class":
+                _, c, bases, spec = st
+                if c in cls_of or any(b not in cls_of for b in bases):
+                    continue
+                ns = {}
+                if spec[0] == "lit":
+                    ns["signals"] = list(spec[1])
+                elif spec[0] == "shared":
+                    if spec[1] not in lists:
+                        continue
+                    ns["signals"] = lists[spec[1]]
+                elif spec[0] == "alias":
+                    o = cls_of.get(spec[1])
+                    if o is None or not isinstance(getattr(o, "signals", None), list):
+                        continue
+                    ns["signals"] = o.signals
+                label = None
+                if "signals" in ns:
+                    # label of the list OBJECT (identity), so the model can tell which classes share one
+                    label = next((lb for lb, obj in labels if obj is ns["signals"]), None)
+                    if label is None:
+                        label = f"list{len(labels)}"
+                        labels.append((label, ns["signals"]))
+                own = list(ns["signals"]) if "signals" in ns else None
+                base_attr = {b: list(getattr(cls_of[b], "signals", [])) for b in bases}
+                try:
+                    cls = S.MetaSignals(c, tuple(cls_of[b] for b in bases), ns)
+                except TypeError:
+                    continue  # inconsistent MRO / duplicate base: not a class family
+                cls_of[c] = cls
+                created.append(cls)
+                inst[c] = cls()
+                events.append({"t": "class", "c": c, "bases": list(bases), "own": own, "base_attr": base_attr, "list": label, "how": spec[0]})
+            elif k == "plain":
+                c = st[1]
+                if c in cls_of:
+                    continue
+                cls = type(c, (), {})
+                cls_of[c] = cls
+                created.append(cls)
+                inst[c] = cls()
+                events.append({"t": "plain", "c": c})
+            elif k == "register":
+                _, c, names = st
+                if c not in cls_of:
+                    continue
+                urwid.register_signal(cls_of[c], list(names))
+                events.append({"t": "register", "c": c, "names": list(names)})
+            else:
+                raise AssertionError(st)
+            nstep += 1
+            # ---- the rejection clause for every (class, name) pair after every class creation / registration
+            for c, o in inst.items():
+                for name in FAM_NAMES:
+                    cb = _CB()
+                    e = {"t": "probe", "c": c, "name": name, "accepted": False, "exc": None, "called": None, "after": nstep}
+                    try:
+                        key = urwid.connect_signal(o, name, cb)
+                    except Exception as ex:  # noqa: BLE001
+                        e["exc"] = type(ex).__name__
+                    else:
+                        e["accepted"] = True
+                        urwid.emit_signal(o, name)
+                        e["called"] = cb.n == 1
+                        urwid.disconnect_signal_by_key(o, name, key)
+                    events.append(e)
+    finally:
+        for cls in created:
+            reg.pop(cls, None)
+    return signals_ref.check_family(events)
+
+
+def family_directed():
+    """the shapes named in the brief, each in a few creation orders"""
+    base = ["class", "Base", [], ["lit", ["b"]]]
+    base2 = ["class", "Base2", [], ["lit", ["c", "b"]]]
+    for share in (["shared", 0], "alias"):
+        later_spec = share if share != "alias" else ["alias", "A"]
+        for later_bases in (["Base"], ["Base", "Base2"], ["Base2"]):
+            for early_first in (True, False):
+                a = ["class", "A", [], ["shared", 0]]
+                b = ["class", "B", later_bases, later_spec]
+                pre = [["list", 0, ["a"]], base, base2]
+                if early_first:
+                    yield {"steps": [*pre, a, b]}
+                    yield {"steps": [["list", 0, ["a"]], a, base, base2, b]}
+                    yield {"steps": [*pre, a, b, ["class", "C", [], ["shared", 0]]]}
+                    yield {"steps": [*pre, a, b, ["class", "SubA", ["A"], ["lit", ["d"]]]]}
+                elif share != "alias":
+                    yield {"steps": [*pre, b, a]}
+    # diamonds, duplicates, absent bodies, manual registration
+    yield {"steps": [["class", "R", [], ["lit", ["a", "a", "b"]]], ["class", "L1", ["R"], ["lit", ["c"]]], ["class", "L2", ["R"], ["lit", ["d", "a"]]], ["class", "D", ["L1", "L2"], ["lit", [7, 7]]]]}
+    yield {"steps": [["class", "R", [], ["lit", ["a"]]], ["class", "L1", ["R"], ["absent"]], ["class", "L2", ["R"], ["lit", ["d"]]], ["class", "D", ["L1", "L2"], ["absent"]], ["class", "E", ["D"], ["lit", ["c"]]]]}
+    yield {"steps": [["class", "R", [], ["absent"]], ["class", "S", ["R"], ["absent"]], ["class", "T", ["S"], ["lit", ["a"]]]]}
+    # a class without its own list and two signal-bearing bases, then subclassed (directly and through another signal-less class)
+    yield {"steps": [["class", "B1", [], ["lit", ["a"]]], ["class", "B2", [], ["lit", ["b"]]], ["class", "X", ["B1", "B2"], ["absent"]], ["class", "Sub", ["X"], ["lit", ["c"]]]]}
+    yield {"steps": [["class", "B1", [], ["lit", ["a"]]], ["class", "B2", [], ["lit", ["b", 7]]], ["class", "X", ["B1", "B2"], ["absent"]], ["class", "Y", ["X"], ["absent"]], ["class", "Sub", ["Y"], ["absent"]]]}
+    yield {"steps": [["plain", "P"], ["register", "P", ["a"]], ["register", "P", ["b", 7]], ["class", "M", [], ["lit", ["c"]]], ["register", "M", ["a"]]]}
+    yield {"steps": [["list", 0, ["a"]], ["list", 1, ["a"]], ["class", "A", [], ["shared", 0]], ["class", "Base", [], ["lit", ["b"]]], ["class", "B", ["Base"], ["shared", 1]]]}
+
+
+def rand_family(rng):
+    steps = [["list", i, [rng.choice(["a", "b", "c", 7]) for _ in range(rng.randint(0, 2))]] for i in range(rng.randint(1, 2))]
+    names = []
+    for i in range(rng.randint(2, 6)):
+        c = f"K{i}"
+        if rng.random() < 0.1:
+            steps.append(["plain", c])
+            names.append(c)
+            continue
+        metas = [n for n in names if ["plain", n] not in steps]
+        bases = rng.sample(metas, min(len(metas), rng.choice([0, 0, 1, 1, 1, 2, 2]))) if metas else []
+        r = rng.random()
+        if r < 0.35:
+            spec = ["lit", [rng.choice(["a", "b", "c", "d", 7]) for _ in range(rng.randint(0, 3))]]
+        elif r < 0.70:
+            spec = ["shared", rng.randrange(2)]
+        elif r < 0.85 and metas:
+            spec = ["alias", rng.choice(metas)]
+        else:
+            spec = ["absent"]
+        steps.append(["class", c, bases, spec])
+        names.append(c)
+    for _ in range(rng.choice([0, 0, 1, 2])):
+        steps.append(["register", rng.choice(names), [rng.choice(["a", "b", "c", "d", 7]) for _ in range(rng.randint(0, 2))]])
+    return {"steps": steps}
+
+
+def judge_family(ctx, desc):
+    try:
+        findings, stats = family_case(desc)
+    except Exception as e:  # noqa: BLE001
+        import traceback
+
+        ctx.violation(f"C14|register|harness-or-urwid-exception|{type(e).__name__}", f"{type(e).__name__}: {e}\n{traceback.format_exc(limit=8)}", {"family": desc})
+        return
+    for k, v in stats.items():
+        ctx.count("model:" + k, v)
+    ctx.count("family_cases")
+    ctx.case(signals_ref.canon({"family": desc}))
+    seen = set()
+    for sig, msg in findings:
+        if sig in seen:
+            continue
+        seen.add(sig)
+        cur = desc
+        if not ctx.replaying:
+            i = len(cur["steps"]) - 1
+            while i >= 0:
+                cand = {"steps": cur["steps"][:i] + cur["steps"][i + 1 :]}
+                try:
+                    if any(f[0] == sig for f in family_case(cand)[0]):
+                        cur = cand
+                except Exception:  # noqa: BLE001
+                    pass
+                i -= 1
+        ctx.violation("C14|" + sig, msg, {"family": cur})
+
+
+def run_family(ctx, frac):
+    i = 0
+    for desc in family_directed():
+        i += 1
+        if ctx.mine(i):
+            judge_family(ctx, desc)
+            ctx.count("family_directed_cases")
+    ctx.sample({"family": next(iter(family_directed()))}, limit=6)
+    rng = ctx.subrng("family")
+    n = 0
+    while ctx.more(frac) and n < ctx.pick(1500, 40000):
+        n += 1
+        judge_family(ctx, rand_family(rng))
+        ctx.count("family_random_cases")
+
 
 def run(ctx):
     setup()
     run_lifetime(ctx, 0.08)
+    run_family(ctx, 0.16)
     idx = 0
     complete = {}
     plan = ctx.pick([(1, 2, 0), (2, 2, 0), (3, 1, 0)], [(1, 2, 0), (2, 2, 0), (3, 2, 0), (4, 1, 0), (4, 2, 2)])
@@ -1268,6 +1613,11 @@ def run(ctx):
                 ctx.sample(wit, limit=1)
         complete[f"n={n},prefix={minprefix}..{maxprefix}"] = done
     ctx.extra["core_complete_in_budget"] = complete
+    for wit in lazy_core_cases():
+        idx += 1
+        if ctx.mine(idx):
+            judge(ctx, wit)
+            ctx.count("lazy_core_histories")
     rng = ctx.rng
     k = 0
     while ctx.more(1.0):
@@ -1290,5 +1640,7 @@ def replay(ctx, wit):
     setup()
     if "lifetime" in wit:
         return judge_lifetime(ctx, wit["lifetime"])
+    if "family" in wit:
+        return judge_family(ctx, wit["family"])
     wit = {"header": wit["header"], "ops": wit["ops"]}
     return judge(ctx, wit)
